@@ -380,6 +380,19 @@ void vp_c17_trace(int x, int y, vp_obs& o)
   m.p(y, x);          // no tracer is alive any more: nothing is traced
   o.x = x; o.y = y; o.extra = 0;
 }
+// C17 / C18: the trace record of a call whose argument and returned value are null char pointers
+struct vp_MS {
+  MAKE_MOCK1(s, char const*(char const*));
+};
+void vp_c17_trace_null(bool isnull, vp_obs& o)
+{
+  vp_MS m;
+  ALLOW_CALL(m, s(trompeloeil::_)).RETURN(_1);
+  vp_tracer t;
+  char const* in = isnull ? nullptr : "x";
+  char const* r = m.s(in);
+  o.ret = (r == in); o.x = isnull; o.y = 0; o.extra = 0;
+}
 // C08: THROW - the side effects run first, the exception reaches the caller, the call still counts as handled
 void vp_c08_throw(int k, vp_obs& o)
 {
